@@ -476,6 +476,9 @@ impl Session {
                     }
                     num_adrreq = 0;
                     rfu_ch_mask_cntl = false;
+                    // A later block in the same frame starts from the mask in force,
+                    // not from the working copy of a block that may have been rejected.
+                    channel_mask = region.channel_mask_get();
                 }
                 LinkCheckAns(..) => {
                     /* TODO: Payload contents are not consumed/handled
